@@ -321,6 +321,14 @@ def run_races(ctx, res):
     results = par_explore(specs)
     cases = []
     per_bound = {}
+    # hand-seeded corpus first (the D15 witnesses), replayed on the current code
+    import json as _json
+    for path in sorted((core.VERIF / "corpus" / ID).glob("*.json")):
+        c = _json.loads(path.read_text())
+        if c.get("kind") == "race":
+            choices, trace, o = sched.run_one(make_race(c["scenario"]), [transport_file()], c["choices"])
+            cases.append((c["scenario"], choices, trace, o))
+            res.count("corpus")
     for (_, sc, b), recs in zip(specs, results):
         per_bound[b] = per_bound.get(b, 0) + len(recs)
         for choices, trace, o in recs:
